@@ -624,7 +624,7 @@ func ops(f *fix) []fop {
 	add("rlweeval", "ApplyEvaluationKey", func(d bool) ([]arg, func() error) {
 		k := mkEval(d)
 		ct, _ := f.bgvCt(1)
-		o := f.dirtyCt(p, 1, 1, d)
+		o := f.dirtyCt(p, 1, map[bool]int{false: 1, true: L}[d], d) // the used receiver sits at a higher level than the input
 		return []arg{{"ct", "in", ct}, {"evk", "in", k.swk}, {"out", "out", o}}, func() error { return k.ev.ApplyEvaluationKey(ct, k.swk, o) }
 	})
 	add("rlweeval", "Relinearize", func(d bool) ([]arg, func() error) {
@@ -632,25 +632,25 @@ func ops(f *fix) []fop {
 		ct, _ := f.bgvCt(1)
 		ct2, err := bgv.NewEvaluator(f.bp, nil).MulNew(ct, ct)
 		tr.Must(err)
-		o := f.dirtyCt(p, 1, 1, d)
+		o := f.dirtyCt(p, 1, map[bool]int{false: 1, true: L}[d], d) // the used receiver sits at a higher level than the input
 		return []arg{{"ct", "in", ct2}, {"out", "out", o}}, func() error { return k.ev.Relinearize(ct2, o) }
 	})
 	add("rlweeval", "Automorphism", func(d bool) ([]arg, func() error) {
 		k := mkEval(d)
 		ct, _ := f.bgvCt(1)
-		o := f.dirtyCt(p, 1, 1, d)
+		o := f.dirtyCt(p, 1, map[bool]int{false: 1, true: L}[d], d) // the used receiver sits at a higher level than the input
 		return []arg{{"ct", "in", ct}, {"out", "out", o}}, func() error { return k.ev.Automorphism(ct, p.GaloisElement(1), o) }
 	})
 	add("rlweeval", "Automorphism/identity", func(d bool) ([]arg, func() error) {
 		k := mkEval(d)
 		ct, _ := f.bgvCt(1)
-		o := f.dirtyCt(p, 1, 1, d)
+		o := f.dirtyCt(p, 1, map[bool]int{false: 1, true: L}[d], d) // the used receiver sits at a higher level than the input
 		return []arg{{"ct", "in", ct}, {"out", "out", o}}, func() error { return k.ev.Automorphism(ct, 1, o) }
 	})
 	add("rlweeval", "AutomorphismHoisted", func(d bool) ([]arg, func() error) {
 		k := mkEval(d)
 		ct, _ := f.bgvCt(1)
-		o := f.dirtyCt(p, 1, 1, d)
+		o := f.dirtyCt(p, 1, map[bool]int{false: 1, true: L}[d], d) // the used receiver sits at a higher level than the input
 		return []arg{{"ct", "in", ct}, {"out", "out", o}}, func() error {
 			k.ev.DecomposeNTT(1, p.MaxLevelP(), p.PCount(), ct.Value[1], ct.IsNTT, k.ev.BuffDecompQP)
 			return k.ev.AutomorphismHoisted(1, ct, k.ev.BuffDecompQP, p.GaloisElement(2), o)
@@ -659,19 +659,19 @@ func ops(f *fix) []fop {
 	add("rlweeval", "Trace", func(d bool) ([]arg, func() error) {
 		k := mkEval(d)
 		ct, _ := f.bgvCt(1)
-		o := f.dirtyCt(p, 1, 1, d)
+		o := f.dirtyCt(p, 1, map[bool]int{false: 1, true: L}[d], d) // the used receiver sits at a higher level than the input
 		return []arg{{"ct", "in", ct}, {"out", "out", o}}, func() error { return k.ev.Trace(ct, 2, o) }
 	})
 	add("rlweeval", "PartialTracesSum", func(d bool) ([]arg, func() error) {
 		k := mkEval(d)
 		ct, _ := f.bgvCt(1)
-		o := f.dirtyCt(p, 1, 1, d)
+		o := f.dirtyCt(p, 1, map[bool]int{false: 1, true: L}[d], d) // the used receiver sits at a higher level than the input
 		return []arg{{"ct", "in", ct}, {"out", "out", o}}, func() error { return k.ev.PartialTracesSum(ct, 1, 5, o) }
 	})
 	add("rlweeval", "Replicate", func(d bool) ([]arg, func() error) {
 		k := mkEval(d)
 		ct, _ := f.bgvCt(1)
-		o := f.dirtyCt(p, 1, 1, d)
+		o := f.dirtyCt(p, 1, map[bool]int{false: 1, true: L}[d], d) // the used receiver sits at a higher level than the input
 
 		return []arg{{"ct", "in", ct}, {"out", "out", o}}, func() error { return k.ev.Replicate(ct, 1, 5, o) }
 	})
